@@ -79,3 +79,11 @@ class TraceChecker:
         self.verdict.deviation(key, "trace line %d of %d not explained by %s (monitor %s): %s"
                                % (idx + 1, total, self.module, r2.violation or "no enabled action", bad_line[:500]), rp)
         return False
+
+
+def extra_conformance(ctx, wd, module, template, invariant, trace, what):
+    """Conformance beyond the listed properties: reported in the evidence, never a violation."""
+    cfg = write_cfg(os.path.join(wd, "trace_ext_%s.cfg" % module), template, invariant, {})
+    acc, matched, total, r = vlib.validate_trace(module, cfg, trace, ctx.pid + "-ext", timeout=900)
+    return {"what": what, "spec": module, "monitor": invariant, "events": total, "accepted": bool(acc),
+            "first_unexplained_line": None if acc else matched}
